@@ -160,6 +160,10 @@ class W:
                 body.insert(r.randrange(len(body) + 1), ('mixinblock',))
             if r.random() < 0.5:
                 body.insert(0, ('code', [('expr', ('id', b"a"))], True, True))
+            if r.random() < 0.35:
+                # the pug idiom `if block ... else ...`: what a mixin does when it is (not) given a block must be the
+                # same in both modes
+                body.append(('cond', ('id', b"block"), [self.text(), ('mixinblock',)], ('block', [self.text()])))
             nodes.insert(0, ('mixin', name, [b"a"], body))
             for _ in range(r.choice([1, 1, 2])):
                 blk = self.nodes(min(depth, 2), r.choice([1, 2])) if r.random() < 0.7 else []
@@ -404,7 +408,7 @@ class C13(CoreProp):
             "The other 70%: 30% white-space-heavy trees of this property (texts with space/tab/CR/LF and form feed / no-break space at "
             "their edges, block vs inline tags (also with the AST's inline flag contradicting the name), nesting depth <= 5 quick / 7 "
             "thorough, pre / textarea / script with line feeds, block children and code, multi-statement code lines, doctype, "
-            "comments, if / each around them, mixin definitions and mixin-call blocks containing block-level tags), 20% C06 static "
+            "comments, if / each around them, mixin definitions — a third of them ending in the idiom `if block ... else ...` — and mixin-call blocks containing block-level tags, calls with and without a block), 20% C06 static "
             "trees (delimiter-heavy texts), 15% C06 mixed programs, 18% C02 control-flow programs (without the 10^4-iteration cap "
             "cases), 17% C03 mixin programs — 40% of the borrowed programs are placed inside a block-level element, so that separators "
             "meet the trim markers of if / each / case / mixin actions; oracle on Go's own two outputs: ws_subseq debug prod (debug = prod minus bytes of "
